@@ -1,161 +1,52 @@
-(* C16: CRC-8 / CRC-16 detect every burst error of span <= 8 / <= 16 bits, including bursts that
-   straddle the message / CRC-field boundary.  Linearity is proved algebraically; three facts
-   about the 2^8 / 2^16 register states are established by complete sweeps inside Coq. *)
+(* C16: CRC-8 / CRC-16 detect every burst error of span <= 8 / <= 16 bits.  Generic theory in Proofs/CrcGen.v; the
+   facts about the two registers come from Proofs/CrcLinear.v: the register maps are additive, the tables below
+   are left inverses on the 8 / 16 basis vectors (checked here by computation), hence on every state. *)
 From FV Require Import Model.Base Model.Crc Proofs.SinkArith Proofs.CrcP.
+From FV Require Export Proofs.CrcGen.
+From FV Require Import Proofs.CrcLinear.
 Local Open Scope N_scope.
 
-Section Gen.
-  Variable w : N.            (* register width *)
-  Variable poly : N.
-  Hypothesis Hw : 1 <= w.
-  Hypothesis Hpoly : poly < 2 ^ w.
+(* inverse tables: image of 2^j under the left inverse of  r |-> step r 0  /  c |-> run 0 (bits of c) *)
+Definition TZ16 : list N := [49154; 1; 2; 4; 8; 16; 32; 64; 128; 256; 512; 1024; 2048; 4096; 8192; 16384].
+Definition TF16 : list N := [49148; 65533; 32767; 65534; 32761; 65522; 32737; 65474; 32641; 65282; 32257; 64514; 30721; 61442; 24577; 49154].
+Definition TZ8 : list N := [131; 1; 2; 4; 8; 16; 32; 64].
+Definition TF8 : list N := [217; 181; 109; 218; 179; 97; 194; 131].
 
-  Definition step (reg : N) (b : bool) : N := crc_bit w (2 ^ w) poly reg b.
-  Definition run (reg : N) (bits : list bool) : N := fold_left step bits reg.
+Lemma crc16_checkZ : forallb (fun i => tabf 16 TZ16 (mapZ 16 32773 (2 ^ N.of_nat i)) =? 2 ^ N.of_nat i) (seq 0 16) = true.
+Proof. vm_compute. reflexivity. Qed.
+Lemma crc16_checkF : forallb (fun i => tabf 16 TF16 (mapF 16 32773 16 (2 ^ N.of_nat i)) =? 2 ^ N.of_nat i) (seq 0 16) = true.
+Proof. vm_compute. reflexivity. Qed.
+Lemma crc16_checkL : forallb (fun i => mapF 16 32773 16 (2 ^ N.of_nat i) =? mapR 16 32773 16 (2 ^ N.of_nat i)) (seq 0 16) = true.
+Proof. vm_compute. reflexivity. Qed.
+Lemma crc8_checkZ : forallb (fun i => tabf 8 TZ8 (mapZ 8 7 (2 ^ N.of_nat i)) =? 2 ^ N.of_nat i) (seq 0 8) = true.
+Proof. vm_compute. reflexivity. Qed.
+Lemma crc8_checkF : forallb (fun i => tabf 8 TF8 (mapF 8 7 8 (2 ^ N.of_nat i)) =? 2 ^ N.of_nat i) (seq 0 8) = true.
+Proof. vm_compute. reflexivity. Qed.
+Lemma crc8_checkL : forallb (fun i => mapF 8 7 8 (2 ^ N.of_nat i) =? mapR 8 7 8 (2 ^ N.of_nat i)) (seq 0 8) = true.
+Proof. vm_compute. reflexivity. Qed.
 
-  Fixpoint zipxor (a b : list bool) : list bool :=
-    match a, b with
-    | x :: a', y :: b' => xorb x y :: zipxor a' b'
-    | _, _ => []
-    end.
-
-  Lemma shl_mod_lxor a b : ((N.lxor a b) * 2) mod 2 ^ w = N.lxor ((a * 2) mod 2 ^ w) ((b * 2) mod 2 ^ w).
-  Proof.
-    apply N.bits_inj. intros i. rewrite N.lxor_spec.
-    destruct (N.lt_ge_cases i w) as [Hi|Hi].
-    - rewrite !N.mod_pow2_bits_low by assumption.
-      replace (N.lxor a b * 2) with (N.shiftl (N.lxor a b) 1) by (rewrite N.shiftl_mul_pow2; reflexivity).
-      replace (a * 2) with (N.shiftl a 1) by (rewrite N.shiftl_mul_pow2; reflexivity).
-      replace (b * 2) with (N.shiftl b 1) by (rewrite N.shiftl_mul_pow2; reflexivity).
-      rewrite N.shiftl_lxor, N.lxor_spec. reflexivity.
-    - rewrite !N.mod_pow2_bits_high by assumption. reflexivity.
-  Qed.
-
-  Lemma lxor_cancel_cases (t : bool) (x p : N) :
-    (if t then N.lxor x p else x) = N.lxor x (if t then p else 0).
-  Proof. destruct t; [reflexivity | rewrite N.lxor_0_r; reflexivity]. Qed.
-
-  Lemma step_linear a b x y : step (N.lxor a b) (xorb x y) = N.lxor (step a x) (step b y).
-  Proof.
-    unfold step, crc_bit. rewrite shl_mod_lxor, N.lxor_spec.
-    set (A := (a * 2) mod 2 ^ w). set (B := (b * 2) mod 2 ^ w).
-    set (ta := N.testbit a (w - 1)). set (tb := N.testbit b (w - 1)).
-    rewrite !lxor_cancel_cases.
-    replace (xorb (xorb ta tb) (xorb x y)) with (xorb (xorb ta x) (xorb tb y)) by (destruct ta, tb, x, y; reflexivity).
-    destruct (xorb ta x), (xorb tb y); cbn [xorb];
-      apply N.bits_inj; intros i; rewrite ?N.lxor_spec, ?N.bits_0;
-      destruct (N.testbit A i), (N.testbit B i), (N.testbit poly i); reflexivity.
-  Qed.
-
-  Lemma run_linear : forall x y a b, length x = length y ->
-    run (N.lxor a b) (zipxor x y) = N.lxor (run a x) (run b y).
-  Proof.
-    induction x as [|bx x IH]; intros [|by_ y] a b Hl; cbn in Hl; try discriminate; [reflexivity|].
-    cbn [zipxor run fold_left]. fold (run (step (N.lxor a b) (xorb bx by_)) (zipxor x y)).
-    rewrite step_linear. apply IH. lia.
-  Qed.
-
-  Lemma step_lt reg b : step reg b < 2 ^ w.
-  Proof. apply crc_bit_lt. exact Hpoly. Qed.
-
-  Lemma run_zeros_zero n : run 0 (repeat false n) = 0.
-  Proof.
-    induction n as [|n IH]; [reflexivity|]. cbn [repeat run fold_left].
-    assert (E : step 0 false = 0).
-    { unfold step, crc_bit. rewrite N.bits_0. cbn [xorb]. rewrite N.mul_0_l. apply N.mod_0_l. apply pow2_nz. }
-    rewrite E. exact IH.
-  Qed.
-
-  (* the three swept facts, as hypotheses of the generic development *)
-  Variable W : nat.                       (* = w as nat *)
-  Hypothesis HW : N.of_nat W = w.
-  Hypothesis sweep_zero_step : forall reg, 0 < reg < 2 ^ w -> step reg false <> 0.
-  Hypothesis sweep_burst : forall p, length p = W -> existsb (fun b => b) p = true -> run 0 p <> 0.
-
-  Lemma run_app r a b : run r (a ++ b) = run (run r a) b.
-  Proof. unfold run. apply fold_left_app. Qed.
-
-  Lemma run_lt : forall bits r, r < 2 ^ w -> run r bits < 2 ^ w.
-  Proof.
-    induction bits as [|b t IH]; intros r Hr; cbn [run fold_left]; [assumption|].
-    apply IH. apply step_lt.
-  Qed.
-
-  Lemma zeros_preserve_nonzero n : forall r, 0 < r < 2 ^ w -> run r (repeat false n) <> 0.
-  Proof.
-    induction n as [|n IH]; intros r Hr; cbn [repeat run fold_left]; [lia|].
-    apply IH. pose proof (sweep_zero_step r Hr). pose proof (step_lt r false). lia.
-  Qed.
-
-  (* a burst: zeros, a window of W bits containing a one, zeros *)
-  Theorem burst_nonzero i j p :
-    length p = W -> existsb (fun b => b) p = true ->
-    run 0 (repeat false i ++ p ++ repeat false j) <> 0.
-  Proof.
-    intros Hl Hp. rewrite !run_app, run_zeros_zero.
-    apply zeros_preserve_nonzero.
-    pose proof (sweep_burst p Hl Hp). pose proof (run_lt p 0 (pow2_pos w)). lia.
-  Qed.
-
-  (* two equal-length messages whose difference is a burst have different remainders *)
-  Theorem burst_detected x y i j p :
-    length x = length y ->
-    zipxor x y = repeat false i ++ p ++ repeat false j ->
-    length p = W -> existsb (fun b => b) p = true ->
-    run 0 x <> run 0 y.
-  Proof.
-    intros Hl Hd Hlp Hp Heq.
-    pose proof (run_linear x y 0 0 Hl) as Hlin. rewrite N.lxor_0_l, Hd, Heq, N.lxor_nilpotent in Hlin.
-    exact (burst_nonzero i j p Hlp Hp Hlin).
-  Qed.
-End Gen.
-
-(* ---- instantiation: complete sweeps over the register states / burst windows ---- *)
-
-Fixpoint all_below (f : N -> bool) (n : nat) : bool :=   (* f 1 && ... && f n *)
-  match n with O => true | S k => f (N.of_nat n) && all_below f k end.
-
-Lemma all_below_spec f : forall n v, all_below f n = true -> 1 <= v <= N.of_nat n -> f v = true.
+(* the three facts, for every register state / window / field value *)
+Lemma crc16_facts :
+  (forall reg, 0 < reg < 2 ^ 16 -> step 16 32773 reg false <> 0) /\
+  (forall p, length p = 16%nat -> existsb (fun b => b) p = true -> run 16 32773 0 p <> 0) /\
+  (forall c, c < 2 ^ 16 -> run 16 32773 0 (byte_bits 16 c) = run 16 32773 c (repeat false 16)).
 Proof.
-  induction n as [|n IH]; intros v H Hv; [cbn in Hv; lia|].
-  cbn [all_below] in H. apply Bool.andb_true_iff in H. destruct H as [H1 H2].
-  destruct (N.eq_dec v (N.of_nat (S n))) as [->|Hne]; [exact H1|].
-  apply IH; [exact H2 | lia].
+  split; [|split].
+  - exact (fact_zero_step 16 32773 ltac:(lia) ltac:(reflexivity) 16%nat eq_refl TZ16 crc16_checkZ).
+  - exact (fact_burst 16 32773 ltac:(lia) ltac:(reflexivity) 16%nat eq_refl TF16 crc16_checkF).
+  - exact (fact_load 16 32773 ltac:(lia) ltac:(reflexivity) 16%nat eq_refl crc16_checkL).
 Qed.
 
-(* all boolean lists of length k *)
-Fixpoint all_lists (k : nat) : list (list bool) :=
-  match k with
-  | O => [[]]
-  | S k' => map (cons false) (all_lists k') ++ map (cons true) (all_lists k')
-  end.
-
-Lemma all_lists_complete : forall k p, length p = k -> In p (all_lists k).
+Lemma crc8_facts :
+  (forall reg, 0 < reg < 2 ^ 8 -> step 8 7 reg false <> 0) /\
+  (forall p, length p = 8%nat -> existsb (fun b => b) p = true -> run 8 7 0 p <> 0) /\
+  (forall c, c < 2 ^ 8 -> run 8 7 0 (byte_bits 8 c) = run 8 7 c (repeat false 8)).
 Proof.
-  induction k as [|k IH]; intros p Hl.
-  - destruct p; [left; reflexivity | discriminate].
-  - destruct p as [|b t]; [discriminate|]. cbn [all_lists]. apply in_or_app.
-    destruct b; [right | left]; apply in_map; apply IH; cbn in Hl; lia.
+  split; [|split].
+  - exact (fact_zero_step 8 7 ltac:(lia) ltac:(reflexivity) 8%nat eq_refl TZ8 crc8_checkZ).
+  - exact (fact_burst 8 7 ltac:(lia) ltac:(reflexivity) 8%nat eq_refl TF8 crc8_checkF).
+  - exact (fact_load 8 7 ltac:(lia) ltac:(reflexivity) 8%nat eq_refl crc8_checkL).
 Qed.
-
-Definition burst_check (w poly : N) (p : list bool) : bool :=
-  negb (existsb (fun b => b) p) || negb (run w poly 0 p =? 0).
-
-(* CRC-16 (0x8005) *)
-Lemma crc16_zero_step_sweep :
-  all_below (fun reg => negb (step 16 32773 reg false =? 0)) (N.to_nat 65535) = true.
-Proof. vm_compute. reflexivity. Qed.
-
-Lemma crc16_burst_sweep : forallb (burst_check 16 32773) (all_lists 16) = true.
-Proof. vm_compute. reflexivity. Qed.
-
-(* CRC-8 (0x07) *)
-Lemma crc8_zero_step_sweep :
-  all_below (fun reg => negb (step 8 7 reg false =? 0)) (N.to_nat 255) = true.
-Proof. vm_compute. reflexivity. Qed.
-
-Lemma crc8_burst_sweep : forallb (burst_check 8 7) (all_lists 8) = true.
-Proof. vm_compute. reflexivity. Qed.
 
 Theorem crc16_burst_detected x y i j p :
   length x = length y ->
@@ -163,13 +54,8 @@ Theorem crc16_burst_detected x y i j p :
   length p = 16%nat -> existsb (fun b => b) p = true ->
   run 16 32773 0 x <> run 16 32773 0 y.
 Proof.
-  apply (burst_detected 16 32773 ltac:(lia) ltac:(reflexivity) 16%nat eq_refl).
-  - intros reg [H0 Hlt]. pose proof (all_below_spec _ _ reg crc16_zero_step_sweep) as H.
-    rewrite N2Nat.id in H. specialize (H ltac:(change (2 ^ 16) with 65536 in Hlt; lia)).
-    apply Bool.negb_true_iff, N.eqb_neq in H. exact H.
-  - intros q Hl Hq. pose proof crc16_burst_sweep as H. rewrite forallb_forall in H.
-    specialize (H q (all_lists_complete 16 q Hl)). unfold burst_check in H. rewrite Hq in H. cbn [negb orb] in H.
-    apply Bool.negb_true_iff, N.eqb_neq in H. exact H.
+  destruct crc16_facts as (S1 & S2 & _).
+  exact (burst_detected 16 32773 ltac:(lia) ltac:(reflexivity) 16%nat eq_refl S1 S2 x y i j p).
 Qed.
 
 Theorem crc8_burst_detected x y i j p :
@@ -178,30 +64,6 @@ Theorem crc8_burst_detected x y i j p :
   length p = 8%nat -> existsb (fun b => b) p = true ->
   run 8 7 0 x <> run 8 7 0 y.
 Proof.
-  apply (burst_detected 8 7 ltac:(lia) ltac:(reflexivity) 8%nat eq_refl).
-  - intros reg [H0 Hlt]. pose proof (all_below_spec _ _ reg crc8_zero_step_sweep) as H.
-    rewrite N2Nat.id in H. specialize (H ltac:(change (2 ^ 8) with 256 in Hlt; lia)).
-    apply Bool.negb_true_iff, N.eqb_neq in H. exact H.
-  - intros q Hl Hq. pose proof crc8_burst_sweep as H. rewrite forallb_forall in H.
-    specialize (H q (all_lists_complete 8 q Hl)). unfold burst_check in H. rewrite Hq in H. cbn [negb orb] in H.
-    apply Bool.negb_true_iff, N.eqb_neq in H. exact H.
-Qed.
-
-(* the byte-level CRC of the model is the bit-level run over the message bits, MSB first *)
-Fixpoint byte_bits (k : nat) (b : N) : list bool :=
-  match k with O => [] | S k' => N.testbit b (N.of_nat k') :: byte_bits k' b end.
-
-Lemma crc_bits_run w poly : forall k byte reg,
-  crc_bits w (2 ^ w) poly k byte reg = run w poly reg (byte_bits k byte).
-Proof.
-  induction k as [|k IH]; intros byte reg; cbn [crc_bits byte_bits run fold_left]; [reflexivity|].
-  rewrite IH. reflexivity.
-Qed.
-
-Theorem crc_is_run w poly bytes :
-  crc w poly bytes = run w poly 0 (flat_map (byte_bits 8) bytes).
-Proof.
-  unfold crc. generalize 0 as reg.
-  induction bytes as [|b t IH]; intros reg; cbn [fold_left flat_map]; [reflexivity|].
-  rewrite run_app. unfold crc_byte. rewrite crc_bits_run. apply IH.
+  destruct crc8_facts as (S1 & S2 & _).
+  exact (burst_detected 8 7 ltac:(lia) ltac:(reflexivity) 8%nat eq_refl S1 S2 x y i j p).
 Qed.
